@@ -50,20 +50,28 @@ def memstr_to_bytes(text):
     return size
 
 
+# if a parent directory vanishes while mkdirp creates the chain of directories,
+# retry up to MKDIRP_N_RETRY times.
+MKDIRP_N_RETRY = 10
+
+
 def mkdirp(d):
     """Ensure directory d exists (like mkdir -p on Unix)
     No guarantee that the directory is writable.
     """
-    try:
-        os.makedirs(d)
-    except OSError as e:
-        if e.errno == errno.ENOENT:
-            # A parent directory created by makedirs has been deleted before
-            # its child could be created (e.g. another process is clearing a
-            # cache that lives there): try once more.
-            os.makedirs(d, exist_ok=True)
-        elif e.errno != errno.EEXIST:
-            raise
+    for remaining_retries in reversed(range(MKDIRP_N_RETRY)):
+        try:
+            os.makedirs(d)
+        except OSError as e:
+            if e.errno == errno.EEXIST:
+                return
+            # ENOENT: a parent directory created by makedirs has been deleted
+            # before its child could be created (e.g. another process is
+            # clearing a cache that lives there): try again.
+            if e.errno != errno.ENOENT or not remaining_retries:
+                raise
+        else:
+            return
 
 
 # if a rmtree operation fails in rm_subdirs, wait for this much time (in secs),
